@@ -77,6 +77,11 @@ pub enum S {
 
 pub type Prog = Vec<S>;
 
+/// convention of the generator: a type parameter whose name starts with `U` is declared without a `Dim` bound
+pub fn is_unbounded_tpar(n: &str) -> bool {
+    n.starts_with('U')
+}
+
 // ------------------------------------------------------------------ numbat source text
 
 fn q_src(q: Q) -> String {
@@ -260,7 +265,7 @@ impl S {
                 } else {
                     format!(
                         "<{}>",
-                        tpars.iter().map(|t| format!("{t}: Dim")).collect::<Vec<_>>().join(", ")
+                        tpars.iter().map(|t| if is_unbounded_tpar(t) { t.clone() } else { format!("{t}: Dim") }).collect::<Vec<_>>().join(", ")
                     )
                 };
                 let ps = params
